@@ -1,9 +1,9 @@
 (* Extraction for C09: generated arithmetic + hand models.  ExtrOcamlBasic only. *)
 From Coq Require Import ZArith List Extraction ExtrOcamlBasic.
 From MomoCommon Require Import GenPrelude.
-From C09 Require Gen_UIntMath Gen_MemPoolConst Gen_MemPool Gen_MemPoolUInt32 PoolLayout PoolLinks PoolConc.
+From C09 Require Gen_UIntMath Gen_MemPoolConst Gen_MemPool PoolU32Prims Gen_MemPoolUInt32 Gen_MemPoolData PoolLayout PoolLinks PoolConc.
 Separate Extraction
-  Gen_UIntMath.Ceil Gen_MemPoolConst.CorrectBlockSize Gen_MemPoolConst.CheckBlockCount Gen_MemPoolConst.CheckBlockAlignment
+  Gen_UIntMath.Ceil Gen_MemPoolConst.GetBlockAlignment Gen_MemPoolConst.CorrectBlockSize Gen_MemPoolConst.CheckBlockCount Gen_MemPoolConst.CheckBlockAlignment
   Gen_MemPool.pvUseCache Gen_MemPool.pvGetAlignmentAddend Gen_MemPool.pvGetBufferSize0 Gen_MemPool.pvGetBufferSize1
   Gen_MemPool.pvIsBufferBytesNear Gen_MemPool.pvGetBufferSize Gen_MemPool.pvGetBlock Gen_MemPool.pvGetBlockIndex
   Gen_MemPool.pvGetBlocksEndPosition Gen_MemPool.pvGetBufferBytesPosition Gen_MemPool.pvGetPrevBufferPosition
@@ -14,4 +14,6 @@ Separate Extraction
   PoolLinks.heap_of_lists PoolLinks.list_of
   PoolConc.empty_world PoolConc.Allocate PoolConc.Deallocate PoolConc.DeallocateAll PoolConc.DeallocateIf PoolConc.MergeFrom
   PoolConc.chain_of PoolConc.getp PoolConc.Swap PoolConc.MoveAssign
-  Gen_MemPoolUInt32.GetRealPointer Gen_MemPoolUInt32.pvGetBufferSize Gen_MemPoolUInt32.pvNewBuffer.
+  Gen_MemPoolUInt32.GetRealPointer Gen_MemPoolUInt32.pvGetBufferSize Gen_MemPoolUInt32.pvNewBuffer
+  Gen_MemPoolUInt32.Allocate Gen_MemPoolUInt32.Deallocate Gen_MemPoolUInt32.DeallocateAll Gen_MemPoolUInt32.nullPtr
+  PoolU32Prims.store32 PoolU32Prims.load32 Gen_MemPoolData.Swap.
